@@ -978,3 +978,125 @@ Fixpoint run_plugins (m : fm) (shown : list bytes) (ps : list (bytes * plugin_re
           end
       end
   end.
+
+(* ================================================================ 6. what can be encoded at all *)
+
+(* a length an i32 can announce *)
+Definition len_ok {A} (l : list A) : bool := in_srangeb 4 (Z.of_nat (List.length l)).
+Definition oall {A} (p : A -> bool) (o : option A) : bool := match o with Some x => p x | None => true end.
+Definition strs_ok (l : list bytes) : bool := len_ok l && forallb len_ok l.
+
+Definition generated_ok (g : generated) : bool :=
+  len_ok (gn_content g) && oall len_ok (gn_name g) && oall len_ok (gn_ip g).
+Definition response_ok (r : response) : bool :=
+  oall len_ok (rs_error r) &&
+  oall (fun l => len_ok l && forallb generated_ok l) (rs_contents r) &&
+  oall strs_ok (rs_warnings r).
+
+Definition i32_ok (z : Z) : bool := in_srangeb 4 z.
+Definition i64_ok (z : Z) : bool := in_srangeb 8 z.
+
+Definition reference_ok (r : reference) : bool := len_ok (ref_name r) && i32_ok (ref_index r).
+Definition annotation_ok (a : annotation) : bool := len_ok (an_key a) && strs_ok (an_values a).
+Definition annos_ok (l : annotations) : bool := len_ok l && forallb annotation_ok l.
+
+Fixpoint ty_ok (t : ty) : bool :=
+  match t with
+  | Ty n k v c an _ r _ =>
+      len_ok n && match k with Some x => ty_ok x | None => true end &&
+      match v with Some x => ty_ok x | None => true end &&
+      len_ok c && annos_ok an && oall reference_ok r
+  end.
+
+Definition extra_ok (e : const_extra) : bool := i32_ok (ex_index e) && len_ok (ex_name e) && len_ok (ex_sel e).
+
+Fixpoint cv_ok (c : const_value) : bool :=
+  match c with
+  | CDouble b => Z.of_N b <? 18446744073709551616
+  | CInt z => i64_ok z
+  | CLiteral s => len_ok s
+  | CIdent s e => len_ok s && oall extra_ok e
+  | CList l => len_ok l && forallb cv_ok l
+  | CMap l => len_ok l && forallb (fun kv => cv_ok (fst kv) && cv_ok (snd kv)) l
+  end.
+
+Definition namespace_ok (n : namespace) : bool := len_ok (ns_language n) && len_ok (ns_name n) && annos_ok (ns_annos n).
+Definition typedef_ok (t : typedef) : bool :=
+  ty_ok (td_type t) && len_ok (td_alias t) && annos_ok (td_annos t) && len_ok (td_comments t).
+Definition enum_value_ok (v : enum_value) : bool :=
+  len_ok (ev_name v) && i64_ok (ev_value v) && annos_ok (ev_annos v) && len_ok (ev_comments v).
+Definition enum_ok (e : enum) : bool :=
+  len_ok (en_name e) && (len_ok (en_values e) && forallb enum_value_ok (en_values e)) && annos_ok (en_annos e) && len_ok (en_comments e).
+Definition constant_ok (c : constant) : bool :=
+  len_ok (co_name c) && ty_ok (co_type c) && cv_ok (co_value c) && annos_ok (co_annos c) && len_ok (co_comments c).
+Definition field_ok (f : field) : bool :=
+  i32_ok (fd_id f) && len_ok (fd_name f) && ty_ok (fd_type f) && oall cv_ok (fd_default f) &&
+  annos_ok (fd_annos f) && len_ok (fd_comments f).
+Definition fields_ok (l : list field) : bool := len_ok l && forallb field_ok l.
+Definition struct_like_ok (s : struct_like) : bool :=
+  len_ok (sl_name s) && fields_ok (sl_fields s) && annos_ok (sl_annos s) && len_ok (sl_comments s).
+Definition function_ok (f : function) : bool :=
+  len_ok (fn_name f) && ty_ok (fn_type f) && fields_ok (fn_args f) && fields_ok (fn_throws f) &&
+  annos_ok (fn_annos f) && len_ok (fn_comments f).
+Definition service_ok (s : service) : bool :=
+  len_ok (sv_name s) && len_ok (sv_extends s) && (len_ok (sv_functions s) && forallb function_ok (sv_functions s)) &&
+  annos_ok (sv_annos s) && oall reference_ok (sv_ref s) && len_ok (sv_comments s).
+
+Definition list_ok {A} (p : A -> bool) (l : list A) : bool := len_ok l && forallb p l.
+
+(* a file without its includes' references; the Filename must leave room for the stub prefix *)
+Definition file_ok (f : file) : bool :=
+  len_ok (ref_prefix ++ f_filename f) &&
+  list_ok (fun i => len_ok (in_path i)) (f_includes f) && strs_ok (f_cpp_includes f) &&
+  list_ok namespace_ok (f_namespaces f) && list_ok typedef_ok (f_typedefs f) && list_ok constant_ok (f_constants f) &&
+  list_ok enum_ok (f_enums f) && list_ok struct_like_ok (f_structs f) && list_ok struct_like_ok (f_unions f) &&
+  list_ok struct_like_ok (f_exceptions f) && list_ok service_ok (f_services f) &&
+  oall (list_ok (fun kv : bytes * category => len_ok (fst kv))) (f_name2cat f).
+
+Fixpoint ast_ok (a : ast) : bool :=
+  match a with
+  | Ast f kids =>
+      file_ok f &&
+      (fix go (l : list (option ast)) : bool :=
+         match l with [] => true | Some k :: r => ast_ok k && go r | None :: r => go r end) kids
+  end.
+
+(* every string and list of the request shorter than 2^31, every integer within its declared
+   width (field ids and include indices i32, enum values and integer constants i64, double bit
+   patterns 64 bit); categories, requiredness and struct kinds are enumerations and always fit *)
+Definition wf_request (r : request) : bool :=
+  len_ok (rq_version r) && strs_ok (rq_gen_params r) && strs_ok (rq_plugin_params r) &&
+  len_ok (rq_language r) && len_ok (rq_output_path r) && ast_ok (rq_ast r).
+
+(* ================================================================ 7. the plugin loop, from the side of what is sent *)
+
+Definition with_plugin_params (r : request) (ps : list bytes) : request :=
+  mkreq (rq_version r) (rq_gen_params r) ps (rq_language r) (rq_output_path r) (rq_recursive r) (rq_ast r).
+
+Definition plugin_name (d : desc) : bytes := fst (lookup_split (d_name d)).
+
+Section GenerateLoop.
+  (* what the external process answers to the request it is sent (the world outside thriftgo) *)
+  Variable run : bytes -> request -> plugin_result.
+
+  (* for i, p := range g.plugins { req.PluginParameters = plugin.Pack(out.UsedPlugins[i].Options);
+     extra := p.Execute(req); ... }  -- ONE request object, reassigned before every call.
+     Returns the result and the trace of (plugin name, request sent). *)
+  Fixpoint generate_loop (m : fm) (shown : list bytes) (req : request) (ds : list desc)
+    : run_res * list (bytes * request) :=
+    match ds with
+    | [] => (ROk shown m, [])
+    | d :: rest =>
+        let req' := with_plugin_params req (pack (d_opts d)) in
+        let name := plugin_name d in
+        match outcome name (run name req') with
+        | Fail ws => (RFail (shown ++ ws), [(name, req')])
+        | Proceed ws cs =>
+            match feed m (map to_gen cs) with
+            | FileManager.Ok m' =>
+                let '(res, tr) := generate_loop m' (shown ++ ws) req' rest in (res, (name, req') :: tr)
+            | _ => (RFail (shown ++ ws), [(name, req')])
+            end
+        end
+    end.
+End GenerateLoop.
